@@ -201,4 +201,16 @@ def lifeRun (cfg : LifeCfg) : LifeSt → List String → List String
 def lifeFold (cfg : LifeCfg) (s : LifeSt) (as : List LifeAct) : LifeSt :=
   as.foldl (fun st a => (lifeStepA cfg st a).2) s
 
+/-- The lifecycle functions of `redis/server.go` that `Lifecycle` and `LifeSys` model, with the fingerprint of the source
+they were written from; regenerated and compared on every run (`source_lifecycle_is_the_modelled_one`). -/
+def lifecycleModelled : List (String × Nat × String) := [
+  ("Server.Start", 9059626223932565288, "LifeAct.start / LAct.start"),
+  ("Server.Stop", 14500269630613429132, "LifeAct.stop / the four phases of Stop in LS"),
+  ("Server.Restart", 18336081763700950141, "LifeAct.restart"),
+  ("Server.open", 17490067933075582671, "start (listeners)"),
+  ("Server.close", 9518650073759857088, "stop phase 1"),
+  ("Server.serve", 15229405390670845273, "LAct.accept / loopExit"),
+  ("Server.tlsServe", 12960034846157918446, "LAct.accept / loopExit (TLS)"),
+  ("Server.startConn", 11630650059779855581, "accept: register, spawn, handshake in the goroutine")]
+
 end GoRedis
